@@ -112,6 +112,7 @@ func (x *Exec) world(task string, op Op) {
 	case OpYield:
 	}
 	x.sim.Dirty = true
+	x.sim.WorldTask = ssim.Cur().ID
 	wr := WorldRec{Step: step(), Task: task, Op: op}
 	if err != nil {
 		wr.Err = classify(err)
@@ -254,7 +255,7 @@ func execute(sc *Scenario, ch ssim.Chooser, keepTrace bool) *Exec {
 	verifSetRecurse(sc.Cfg.Recurse)
 	x.FDsBefore = countFDs()
 	x.sim = sinot.New(sinot.Config{QueueLimit: sc.Cfg.QueueLimit, Coalesce: sc.Cfg.Coalesce, BatchMode: sc.Cfg.BatchMode,
-		FaultAdd: sc.Cfg.FaultAdd, FaultInit: sc.Cfg.FaultInit, FaultRead: sc.Cfg.FaultRead, MaxAddFault: 3})
+		FaultAdd: sc.Cfg.FaultAdd, FaultInit: sc.Cfg.FaultInit, FaultRead: sc.Cfg.FaultRead, MaxAddFault: 3, Reorder: sc.Cfg.Reorder})
 	if err := x.sim.NewShadow(); err != nil {
 		fmt.Fprintf(os.Stderr, "ENVIRONMENT: cannot create the shadow inotify instance: %v\n", err)
 		os.Exit(2)
